@@ -54,7 +54,7 @@ def ckey(a, b):
 
 
 def build(E, rank, N, closures=None, flags=None, potentials=None, omegas=None, diam=None, dr_lo=1e-3, types=None, prefix='',
-          group_assign=False, kT_reassign=False, rho=None, psigma=None, domain_from='dr'):
+          group_assign=False, kT_reassign=False, rho=None, psigma=None, domain_from='dr', reassign=False):
     """closures: {pair: class name | 'Havoc'}; potentials: {pair: cfg}; omegas: {pair: 'array'|'SingleSite'|'NoIntra'|(Omega object, values)};
     diam: {type: multiple of dr}; psigma: {pair: multiple of dr} explicit potential sigma. Pair keys are canonical (sorted) names.
     group_assign: closure and potential tables are filled by ONE list assignment (table[types,types] = obj) - needs a uniform closure/potential.
@@ -84,6 +84,11 @@ def build(E, rank, N, closures=None, flags=None, potentials=None, omegas=None, d
             B.rho[t] = E.real(prefix + 'rho' + t, pos=True, default=0.2 + 0.1 * i)
         m = (diam or {}).get(t, 1 + (i % N))
         B.d[t] = B.dr * m
+    if reassign:
+        # every value is first assigned something else (a corrected input, a sweep): nothing of it may survive
+        for t in types:
+            S.density[t] = B.rho[t] * 3.0
+            S.diameter[t] = B.d[t] * 2.0
     for t in types:
         S.density[t] = B.rho[t]
         S.diameter[t] = B.d[t]
